@@ -34,7 +34,12 @@ def prepare_all(tier, seed):
     for u in tunits + punits:
         if not u.ok:
             raise c.ToolError(f"corpus unit {u.uid} ({u.idl_path}) did not build [{u.status}]; the generated-code checks cannot run:\n{u.output[-1500:]}")
-    return tss, tunits, pss, punits
+    # the runtime-only kinds: hand-written messages compiled into the worker (harness/gencases/src/pbkinds.rs)
+    rk = pbschemas.runtime_kinds()
+    ru = gen.Unit(rk["name"], None, kind="static")
+    ru.ok = True
+    ru.registry = [{"path": "@pbk::" + m["name"], "trait": "prost", "has_default": True} for m in rk["messages"]]
+    return tss, tunits, pss + [rk], punits + [ru]
 
 
 def cases_for(tier, seed, ss):
@@ -176,7 +181,8 @@ def analyse(tier, seed):
             finds.append((tags | {"C05"}, dict(cls, check="redecode"), replay))
         if not r.get("ld_ok", True):
             finds.append(({"C05"}, dict(cls, check="length-delimited"), replay))
-        if cs["kind"] == "canon" and op == "decode" and r.get("dbg"):
+        bare = cs["sid"] == "pbk" and cs["ty"].endswith("Value")      # wrapper messages are bare Rust scalars: no field names in Debug
+        if cs["kind"] == "canon" and op == "decode" and r.get("dbg") and not bare:
             bad_fields = held_values_mismatch(pss, cs, r["dbg"])
             for fname, fk, want in bad_fields:
                 finds.append(({"C06", "C05"}, dict(cls, check="held-value", scalar=fk), dict(replay, field=fname, expected_number=want, debug=r["dbg"][:600])))
